@@ -69,6 +69,7 @@ func c10(c *Ctx) {
 		}
 		cfg.LibDefaults.TicketLifetime = time.Duration(2+combo%7) * time.Hour
 		k.RequirePreauth = combo&32 != 0
+		k.ExtraHints = combo&16 != 0
 		var cl *client.Client
 		kind := "password"
 		if combo%2 == 1 {
@@ -131,6 +132,7 @@ func c10(c *Ctx) {
 		cl.Destroy()
 	}
 	k.RequirePreauth = false
+	k.ExtraHints = false
 
 	// ---------- (b) cache / expiry / renewal histories in real time with short lifetimes ----------
 	type hist struct {
@@ -201,9 +203,9 @@ func c10(c *Ctx) {
 			current := map[string]kdc.Issue{}
 			var jops, jobs []jv.V
 			type chk struct {
-				ok           bool
-				oracle, sig  string
-				detail       string
+				ok          bool
+				oracle, sig string
+				detail      string
 			}
 			var checks []chk
 			skipModel := false
@@ -321,6 +323,7 @@ func c10(c *Ctx) {
 			kk.TicketLifetime = 4 * time.Second
 			kk.ServiceLifetime = 2 * time.Second
 			kk.RequirePreauth = vi%2 == 1 // re-login then goes through a refused pre-emptive timestamp
+			kk.ExtraHints = vi%2 == 1     // ... and the e-data carries lower-precedence hints after ETYPE-INFO2
 			if renewable {
 				kk.RenewLifetime = 30 * time.Second
 			}
